@@ -2,35 +2,41 @@ package extract
 
 import "fmt"
 
-// Enums: the stringer name/index tables of Severity and ArchOp.
+// Enums: the name/index tables of the stringer-backed enumerations Severity and
+// ArchOp (and their copies, and PackageKind, in toolkit/types).
+//
+// Evaluated (design/EXTRACT.md): the probe go/cmd/rxprobe/enums calls the real
+// String method on 0, 1, 2, … until it answers with the fallback "<Type>(n)";
+// the concatenation of the names and their offsets is what stringer writes as
+// `_<Type>_name` / `_<Type>_index`, however the method is implemented today.
 func init() {
 	Register(Gen{Name: "Enums", Run: func(repo string) (string, error) {
 		out := Header("Enums", "severity_string.go", "archop_string.go", "toolkit/types/generate_string.go")
-		for _, e := range []struct{ file, typ, as string }{
-			{"severity_string.go", "Severity", "Severity"}, {"archop_string.go", "ArchOp", "ArchOp"},
-			// the copies of the same types (and PackageKind) in toolkit/types share one generated file
-			{"toolkit/types/generate_string.go", "Severity", "TkSeverity"}, {"toolkit/types/generate_string.go", "ArchOp", "TkArchOp"},
-			{"toolkit/types/generate_string.go", "PackageKind", "PackageKind"},
-		} {
-			_, f, err := ParseFile(repo, e.file)
-			if err != nil {
-				return "", err
+		var ans struct {
+			Enums map[string][]string `json:"enums"`
+		}
+		if err := rxProbe(repo, "enums", map[string]any{}, &ans); err != nil {
+			return "", err
+		}
+		names := ans.Enums
+		for _, as := range []string{"Severity", "ArchOp", "TkSeverity", "TkArchOp", "PackageKind"} {
+			ns, ok := names[as]
+			if !ok || len(ns) == 0 {
+				return "", fmt.Errorf("enums probe: no names for %s", as)
 			}
-			name, err := StringConst(f, "_"+e.typ+"_name")
-			if err != nil {
-				return "", err
+			name := ""
+			idx := []int64{0}
+			for _, n := range ns {
+				name += n
+				idx = append(idx, int64(len(name)))
 			}
-			idx, err := IntArray(f, "_"+e.typ+"_index")
-			if err != nil {
-				return "", err
-			}
-			out += fmt.Sprintf("def %sName : String := %s\n", lower(e.as), LeanString(name))
-			out += fmt.Sprintf("def %sIndex : List Nat := %s\n", lower(e.as), LeanNatList(idx))
+			out += fmt.Sprintf("def %sName : String := %s\n", lower(as), LeanString(name))
+			out += fmt.Sprintf("def %sIndex : List Nat := %s\n", lower(as), LeanNatList(idx))
 			bs := make([]int64, len(name))
 			for i := 0; i < len(name); i++ {
 				bs[i] = int64(name[i])
 			}
-			out += fmt.Sprintf("def %sNameBytes : List Nat := %s\n\n", lower(e.as), LeanNatList(bs))
+			out += fmt.Sprintf("def %sNameBytes : List Nat := %s\n\n", lower(as), LeanNatList(bs))
 		}
 		return out + Footer("Enums"), nil
 	}})
